@@ -385,6 +385,7 @@ def oracle_c07(lhs, obs, group=None):
     alone and does not move the wake-up"""
     ops = kv_of(lhs).get("ops", "").split(";")
     sealed = {}        # tid -> bool for outstanding requests
+    asked = set()      # tids for which cancel / cancel_retransmissions was called since their send
     remote = None
     last_wait = None   # (now, wait instant) of the last poll that answered WaitUntil, if only drops happened since
     prev = None
@@ -396,6 +397,14 @@ def oracle_c07(lhs, obs, group=None):
             remote = p[1]
         if p[0] == "S" and p[2] == "0" and head.startswith("tx:"):
             sealed[int(p[1], 16)] = p[3] != "n"
+            asked.discard(int(p[1], 16))
+        if p[0] in ("C", "R") and head == "ok":
+            asked.add(int(p[1], 16))
+        if p[0] == "P" and head.startswith("cancelled:"):
+            t = int(head.split(":")[1], 16)
+            if t not in asked:
+                return (f"call {i}: transaction {t:x} was reported cancelled although neither cancel nor cancel_retransmissions "
+                        f"was called for it since it was sent (responses must not be able to cancel a transaction)")
         if p[0] == "H" and p[1] in ("ok", "err"):
             tid = int(p[2], 16)
             if tid in sealed:
